@@ -227,7 +227,7 @@ Proof.
     rewrite SC.
     destruct ((td <=? vtd t) || (bht b <? fin + margin)).
     + assert (E : match vbranch (S (Z.to_nat (bht b))) (vidx vs) (vmain vs) (bid b) with
-                  | BNil => (vs, false, VPanic) | _ => (vs, false, VNone) end = (vs, false, VNone)).
+                  | BNil => (vs, false, VParent) | _ => (vs, false, VNone) end = (vs, false, VNone)).
       { destruct (branch _ _ _ _) as [[p fk]|]; [destruct HB as [HB _]|]; rewrite HB; reflexivity. }
       rewrite E. triv HG HS.
     + destruct (branch (S (Z.to_nat (bht b))) (map nproj (vidx vs)) (vmain vs) (bid b)) as [[p fk]|].
